@@ -33,8 +33,12 @@ func TestC14(t *testing.T) {
 	defer runtime.GOMAXPROCS(prev)
 	rapid.Check(t, func(t *rapid.T) {
 		shape := rapid.SampledFrom([]string{"l1only", "l1l2", "l1l2+batch"}).Draw(t, "shape")
+		l1kinds := []string{"std", "std", "chunked", "chunked", "batched", "batched", "inmem"}
+		if shape == "l1only" {
+			l1kinds = append(l1kinds, "cluster", "cluster") // the cluster proxy's shape: per-connection node connections behind a hash ring
+		}
 		cfg := stack.Config{Shape: shape, Lock: rapid.SampledFrom([]string{"nolock", "lock1r", "lockNr"}).Draw(t, "lock"),
-			L1: rapid.SampledFrom([]string{"std", "std", "chunked", "chunked", "batched", "batched", "inmem"}).Draw(t, "l1"), L2: "-"}
+			L1: rapid.SampledFrom(l1kinds).Draw(t, "l1"), L2: "-"}
 		if shape != "l1only" {
 			cfg.L2 = "std"
 		}
@@ -61,6 +65,16 @@ func TestC14(t *testing.T) {
 			opts := cmdGenOpts{Binary: binary, Keys: keys, TwoPorts: false, NoExpiry: true, MaxGetLen: 3, GetE: cfg.Shape == "l1only" && cfg.L1 != "chunked"}
 			for s := 0; s < steps; s++ {
 				c := genCmd(t, opts, now)
+				if cfg.L1 == "cluster" {
+					// the cluster handler implements set, get and gete only (the others are
+					// stubs that answer success without doing anything): its domain
+					switch c.Kind {
+					case wire.Add, wire.Replace:
+						c.Kind = wire.Set
+					case wire.Append, wire.Prepend, wire.Delete, wire.Touch, wire.Gat:
+						c = wire.Cmd{Kind: wire.Get, Keys: []string{c.Key}}
+					}
+				}
 				if len(c.Value) > 5003 {
 					c.Value = c.Value[:5003] // interference is the subject here, not size; the race-detector build moves large values very slowly
 				}
